@@ -73,6 +73,50 @@ impl StateGraph {
         //@body file=lrtable/src/lib/stategraph.rs fn=core_state
         //@endbody
     }
+    fn iter_closed_states(&self) -> (r: Vec<&Itemset>)
+        ensures r@.len() == self.states@.len() && forall|k: int| 0 <= k < r@.len() ==> *(#[trigger] r@[k]) == self.states@[k].1, // OBL: C16.graph.the_closed_states_are_handed_out_in_state_order
+    {
+        //@probe
+        //@body file=lrtable/src/lib/stategraph.rs fn=iter_closed_states
+        //@rule n=1 `Box::new\(self\.states\.iter\(\)\.map\(\|\(_, x\)\| x\)\)` =>>
+        // dialect rule 5: the iterator `v.iter().map(|P| x)` as the list of its items
+        let mut out_: Vec<&Itemset> = Vec::new();
+        let mut k_: usize = 0;
+        while k_ < self.states.len()
+            invariant k_ <= self.states@.len(), out_@.len() == k_, forall|k: int| 0 <= k < out_@.len() ==> *(#[trigger] out_@[k]) == self.states@[k].1,
+            decreases self.states@.len() - k_,
+        {
+            //@probe
+            let (_, x) = &self.states[k_];
+            out_.push(x);
+            k_ += 1;
+        }
+        out_
+        //@end
+        //@endbody
+    }
+    fn iter_core_states(&self) -> (r: Vec<&Itemset>)
+        ensures r@.len() == self.states@.len() && forall|k: int| 0 <= k < r@.len() ==> *(#[trigger] r@[k]) == self.states@[k].0, // OBL: C16.graph.the_core_states_are_handed_out_in_state_order
+    {
+        //@probe
+        //@body file=lrtable/src/lib/stategraph.rs fn=iter_core_states
+        //@rule n=1 `Box::new\(self\.states\.iter\(\)\.map\(\|\(x, _\)\| x\)\)` =>>
+        // dialect rule 5: the iterator `v.iter().map(|P| x)` as the list of its items
+        let mut out_: Vec<&Itemset> = Vec::new();
+        let mut k_: usize = 0;
+        while k_ < self.states.len()
+            invariant k_ <= self.states@.len(), out_@.len() == k_, forall|k: int| 0 <= k < out_@.len() ==> *(#[trigger] out_@[k]) == self.states@[k].0,
+            decreases self.states@.len() - k_,
+        {
+            //@probe
+            let (x, _) = &self.states[k_];
+            out_.push(x);
+            k_ += 1;
+        }
+        out_
+        //@end
+        //@endbody
+    }
     fn all_states_len(&self) -> (r: StIdx<$T>)
         requires self.wf(),
         ensures r.0 == self.states@.len(), // OBL: C16.graph.number_of_states_is_not_truncated C20.graph.number_of_states_is_not_truncated
